@@ -44,7 +44,13 @@ func Scan(src []byte) (toks []Tok, errs int) {
 // Syntax returns the token stream used for "same tokens" comparisons: comments and semicolons
 // dropped, a comma directly before a closing delimiter dropped (Go's optional trailing comma, which
 // go/printer inserts or removes on its own depending on line breaks), literal text kept.
-func Syntax(toks []Tok) []string {
+func Syntax(toks []Tok) []string { return syntax(toks, false) }
+
+// SyntaxStrict is Syntax with trailing commas kept: gofmt never adds or removes a line break, so
+// for one and the same source text the trailing commas it emits are determined by the source too.
+func SyntaxStrict(toks []Tok) []string { return syntax(toks, true) }
+
+func syntax(toks []Tok, strict bool) []string {
 	var out []string
 	var kinds []token.Token
 	for _, t := range toks {
@@ -52,7 +58,7 @@ func Syntax(toks []Tok) []string {
 		case token.COMMENT, token.SEMICOLON:
 			continue
 		}
-		if t.Tok == token.RPAREN || t.Tok == token.RBRACK || t.Tok == token.RBRACE {
+		if !strict && (t.Tok == token.RPAREN || t.Tok == token.RBRACK || t.Tok == token.RBRACE) {
 			if n := len(kinds); n > 0 && kinds[n-1] == token.COMMA {
 				out = out[:n-1]
 				kinds = kinds[:n-1]
